@@ -49,7 +49,13 @@ type File struct {
 
 type Sim struct {
 	T        *tor.Torrent
-	Content  []byte
+	Content  []byte // nil for a sparse torrent: use Ref
+	Salt     uint32
+	Total    int64
+	Lo, Hi   int // the pieces that have real hashes (all of them unless sparse)
+	Fake     *peer.Peer
+	haveMu   sync.Mutex
+	haves    map[uint32]int // PeerHave{i,true} broadcasts seen by the fake peer
 	PS       uint32
 	N        int // number of pieces
 	Files    []File
@@ -97,18 +103,29 @@ func (w logWriter) Write(p []byte) (int, error) {
 // TorrentFile builds a .torrent for the given layout (single file when len(files)==1 and
 // single is true).
 func TorrentFile(name string, ps uint32, files []File, single bool, content []byte) []byte {
+	return TorrentFileSparse(name, ps, files, single, func(a, b int64) []byte { return content[a:b] }, 0, -1)
+}
+
+// TorrentFileSparse: only pieces lo..hi get their real hash (hi < 0: all); the others get a
+// dummy one, so that geometries of several GiB cost nothing.  Only lo..hi may be injected.
+func TorrentFileSparse(name string, ps uint32, files []File, single bool, ref func(a, b int64) []byte, lo, hi int) []byte {
 	var total int64
 	for _, f := range files {
 		total += f.Length
 	}
-	var hashes []byte
-	for off := int64(0); off < total; off += int64(ps) {
+	np := int((total + int64(ps) - 1) / int64(ps))
+	hashes := make([]byte, 20*np)
+	for i := 0; i < np; i++ {
+		if hi >= 0 && (i < lo || i > hi) {
+			continue
+		}
+		off := int64(i) * int64(ps)
 		end := off + int64(ps)
 		if end > total {
 			end = total
 		}
-		h := sha1.Sum(content[off:end])
-		hashes = append(hashes, h[:]...)
+		h := sha1.Sum(ref(off, end))
+		copy(hashes[20*i:], h[:])
 	}
 	info := map[string]interface{}{
 		"name":         name,
@@ -138,22 +155,54 @@ func TorrentFile(name string, ps uint32, files []File, single bool, content []by
 	return tb
 }
 
+// Ref returns the reference content [a, b).
+func (s *Sim) Ref(a, b int64) []byte {
+	if s.Content != nil {
+		return s.Content[a:b]
+	}
+	out := make([]byte, b-a)
+	for i := range out {
+		out[i] = ContentByte(s.Salt, a+int64(i))
+	}
+	return out
+}
+
 // New builds the torrent with tor.ReadTorrent and starts its event loop (tor.AddTorrent).
 func New(name string, salt uint32, ps uint32, files []File, single bool) (*Sim, error) {
+	return NewOpt(name, salt, ps, files, single, 0, -1, false)
+}
+
+// NewOpt: lo..hi = pieces with real hashes (hi < 0: all, dense content); fakePeer adds a
+// peer without goroutines whose event channel the harness drains (it sees the PeerHave
+// broadcast of every TorHave the loop handles).
+func NewOpt(name string, salt uint32, ps uint32, files []File, single bool, lo, hi int, fakePeer bool) (*Sim, error) {
 	var total int64
 	for _, f := range files {
 		total += f.Length
 	}
-	content := Content(salt, total)
-	tb := TorrentFile(name, ps, files, single, content)
+	s := &Sim{Salt: salt, Total: total, PS: ps, Files: files,
+		snapCh: make(chan []tor.VerifRequestedPiece, 4), heldCh: make(chan chan []peer.TorEvent, 1),
+		haves: map[uint32]int{}}
+	if hi < 0 {
+		s.Content = Content(salt, total)
+	}
+	tb := TorrentFileSparse(name, ps, files, single, s.Ref, lo, hi)
 	t, err := tor.ReadTorrent("", bytes.NewReader(tb))
 	if err != nil {
 		return nil, err
 	}
-	s := &Sim{T: t, Content: content, PS: ps, N: t.Pieces.Num(), Files: files,
-		snapCh: make(chan []tor.VerifRequestedPiece, 4), heldCh: make(chan chan []peer.TorEvent, 1)}
+	s.T, s.N = t, t.Pieces.Num()
+	s.Lo, s.Hi = lo, hi
+	if hi < 0 {
+		s.Lo, s.Hi = 0, s.N-1
+	}
 	t.Log.SetFlags(0)
 	t.Log.SetOutput(logWriter{s})
+	if fakePeer {
+		s.Fake = peer.VerifNewPeer(peer.VerifPeerOpts{Hash: t.Hash, Id: t.MyId, Pieces: &t.Pieces, WriterCap: 4})
+		t.VerifAddPeer(s.Fake) // before the loop exists
+		go s.drainFake()
+	}
 	ctx, cancel := context.WithCancel(context.Background())
 	s.Cancel = cancel
 	t2, err := tor.AddTorrent(ctx, t)
@@ -166,6 +215,113 @@ func New(name string, salt uint32, ps uint32, files []File, single bool) (*Sim, 
 		return nil, errors.New("AddTorrent returned another torrent")
 	}
 	return s, nil
+}
+
+func (s *Sim) drainFake() {
+	for {
+		select {
+		case e := <-s.Fake.Event:
+			switch e := e.(type) {
+			case peer.PeerHave:
+				if e.Have {
+					s.haveMu.Lock()
+					s.haves[e.Index]++
+					s.haveMu.Unlock()
+				}
+			case peer.PeerGetStatus:
+				close(e.Ch)
+			}
+		case <-s.T.Deleted:
+			return
+		}
+	}
+}
+
+// HaveCount: how many TorHave(i, true) the loop has handled (fake peer only).  Call after
+// Sync: the broadcast precedes the end of the handler, the drain may lag by a moment.
+func (s *Sim) HaveCount(i uint32) int {
+	for k := 0; k < 200 && len(s.Fake.Event) > 0; k++ {
+		time.Sleep(100 * time.Microsecond)
+	}
+	s.haveMu.Lock()
+	defer s.haveMu.Unlock()
+	return s.haves[i]
+}
+
+// Fill stuffs Torrent.Event to capacity with harmless events (TorHave{_, false}: a
+// broadcast to nobody).  Only meaningful while the loop is held.
+func (s *Sim) Fill() int {
+	n := 0
+	for {
+		select {
+		case s.T.Event <- peer.TorHave{Index: 0, Have: false}:
+			n++
+		default:
+			return n
+		}
+	}
+}
+
+// LastBlock delivers piece i the way two peers' goroutines would: AddData of every block
+// (right or wrong content), then k TorData{Complete: true} events for the last block, so
+// that the REAL handler starts the REAL finalisePiece goroutine(s), which announce through
+// the real Torrent.Have.  Returns whether AddData reported the piece complete.
+func (s *Sim) LastBlock(i uint32, wrong bool, k int) bool {
+	off, end := s.PieceRange(i)
+	data := append([]byte(nil), s.Ref(off, end)...)
+	if wrong {
+		data[len(data)/3] ^= 0x3c
+	}
+	const cs = 16384
+	complete := false
+	lastB, lastL := 0, 0
+	for b := 0; b < len(data); b += cs {
+		e := b + cs
+		if e > len(data) {
+			e = len(data)
+		}
+		_, c, err := s.T.Pieces.AddData(i, uint32(b), data[b:e], ^uint32(0))
+		if err != nil {
+			return false
+		}
+		complete = c
+		lastB, lastL = b, e-b
+	}
+	if !complete {
+		return false
+	}
+	for j := 0; j < k; j++ {
+		select {
+		case s.T.Event <- peer.TorData{Index: i, Begin: uint32(lastB), Length: uint32(lastL), Complete: true}:
+		case <-s.T.Done:
+			return false
+		}
+	}
+	return true
+}
+
+// Quiesce waits until no piece of lo..hi is being hashed and the loop has handled what the
+// hashing goroutines sent.
+func (s *Sim) Quiesce() {
+	for round := 0; round < 3; round++ {
+		for k := 0; k < 20000; k++ {
+			busy := false
+			for i := s.Lo; i <= s.Hi; i++ {
+				if s.T.Pieces.VerifPiece(uint32(i)).State == 2 {
+					busy = true
+					break
+				}
+			}
+			if !busy {
+				break
+			}
+			time.Sleep(100 * time.Microsecond)
+		}
+		time.Sleep(time.Millisecond)
+		if !s.Sync() {
+			return
+		}
+	}
 }
 
 // Snapshot returns Torrent.requested as read by the event loop after every event sent
@@ -234,8 +390,8 @@ func (s *Sim) Sync() bool {
 func (s *Sim) PieceRange(i uint32) (int64, int64) {
 	off := int64(i) * int64(s.PS)
 	end := off + int64(s.PS)
-	if end > int64(len(s.Content)) {
-		end = int64(len(s.Content))
+	if end > s.Total {
+		end = s.Total
 	}
 	return off, end
 }
@@ -259,9 +415,9 @@ func (s *Sim) Verify(i uint32) (bool, error) { return s.injectOpt(i, false, fals
 // (AddData only, no verification): the whole piece, or its first block only.
 func (s *Sim) Garbage(i uint32, whole bool) {
 	off, end := s.PieceRange(i)
-	data := make([]byte, end-off)
+	data := append([]byte(nil), s.Ref(off, end)...)
 	for k := range data {
-		data[k] = s.Content[off+int64(k)] ^ 0xA5
+		data[k] ^= 0xA5
 	}
 	const cs = 16384
 	for b := 0; b < len(data); b += cs {
@@ -280,7 +436,7 @@ func (s *Sim) inject(i uint32, corrupt bool) (bool, error) { return s.injectOpt(
 
 func (s *Sim) injectOpt(i uint32, corrupt bool, have bool) (bool, error) {
 	off, end := s.PieceRange(i)
-	data := append([]byte(nil), s.Content[off:end]...)
+	data := append([]byte(nil), s.Ref(off, end)...)
 	if corrupt {
 		data[len(data)/2] ^= 0x5a
 	}
@@ -313,7 +469,7 @@ func (s *Sim) injectOpt(i uint32, corrupt bool, have bool) (bool, error) {
 // Evict evicts exactly piece i (if it holds data) through Pieces.Expire with the callback
 // tor.Expire uses (Torrent.Have(index, false)).  Returns the pieces the callback reported.
 func (s *Sim) Evict(i uint32) []uint32 {
-	for j := 0; j < s.N; j++ {
+	for j := s.Lo; j <= s.Hi; j++ {
 		s.T.Pieces.VerifSetTime(uint32(j), 0xFFFFFFFF)
 	}
 	s.T.Pieces.VerifSetTime(i, 0)
@@ -326,7 +482,7 @@ func (s *Sim) Evict(i uint32) []uint32 {
 		evicted = append(evicted, index)
 		s.T.Have(index, false)
 	})
-	for j := 0; j < s.N; j++ {
+	for j := s.Lo; j <= s.Hi; j++ {
 		s.T.Pieces.VerifSetTime(uint32(j), 0)
 	}
 	return evicted
